@@ -49,8 +49,6 @@ def parse_choose(cur, weighted):
         props.append((c, m[2], m[3], p0, p1))
         if m[3]:
             return pop, props, c
-        if len(props) > 100000:
-            raise ParseError('rejection loop too long')
 
 
 def close(a, b, rel=1e-9, abs_=1e-12):
